@@ -166,6 +166,9 @@ pub fn run_churn(c: &ChurnCase) -> CaseResult {
 #[derive(Serialize, Deserialize, Clone, Debug)]
 pub struct MeshCase {
     pub timeouts: Vec<u32>,
+    /// unencrypted mesh
+    #[serde(default)]
+    pub plain: bool,
 }
 
 pub fn run_mesh(c: &MeshCase) -> CaseResult {
@@ -177,6 +180,9 @@ pub fn run_mesh(c: &MeshCase) -> CaseResult {
             let mut cfg = base_config(Mode::Router, Type::Tun, 0, &[0]);
             cfg.peer_timeout = *t;
             cfg.claims = vec![format!("10.{}.0.0/16", i)];
+            if c.plain {
+                cfg.crypto.algorithms = vec!["plain".to_string()];
+            }
             cfg
         })
         .collect();
@@ -365,7 +371,10 @@ pub fn run(ctx: &Ctx) {
     for a in &grid {
         for b in &grid {
             for c in &grid {
-                meshes.push(MeshCase { timeouts: vec![*a, *b, *c] });
+                meshes.push(MeshCase { timeouts: vec![*a, *b, *c], plain: false });
+                if a <= b && b <= c {
+                    meshes.push(MeshCase { timeouts: vec![*a, *b, *c], plain: true });
+                }
             }
         }
     }
